@@ -44,7 +44,10 @@ def case_st(draw):
         k = draw(st.integers(1, left))
         chunks.append(k)
         left -= k
-    return {"msgs": msgs, "chunks": chunks, "realfile": draw(st.sampled_from((False, False, False, True))),
+    calls = draw(st.lists(st.one_of(st.tuples(st.just("idx"), st.integers(0, n + 1)),
+                                     st.tuples(st.just("all"), st.one_of(st.none(), st.integers(0, n + 1)), st.one_of(st.none(), st.integers(1, n + 1)))),
+                          max_size=8))
+    return {"msgs": msgs, "chunks": chunks, "calls": calls, "realfile": draw(st.sampled_from((False, False, False, True))),
             "cuts": draw(st.lists(st.integers(0, 10 ** 6), min_size=6, max_size=6))}
 
 
@@ -101,6 +104,25 @@ def oracle(case):
         if pos != len(blob):
             raise Violation("c15:record-framing", "%d stray octets after the last record" % (len(blob) - pos))
 
+        # a generated sequence of reads on the same reader object first (no read may depend on the previous one)
+        for c_ in case.get("calls", []):
+            c_ = tuple(c_)
+            if c_[0] == "idx":
+                r = ddf.parse_msg(c_[1])
+                if c_[1] < n:
+                    if not same(r, msgs[c_[1]]):
+                        raise Violation("c15:parse_msg-after-other-reads", "parse_msg(%d) != stored message after %r" % (c_[1], case["calls"]))
+                elif r is not None:
+                    raise Violation("c15:parse_msg-beyond-end", "parse_msg(%d) of %d returned %r" % (c_[1], n, r))
+            else:
+                skip, count = c_[1], c_[2]
+                r = ddf.parse_all(skip=skip, count=count)
+                exp_ = msgs[(skip or 0):]
+                if count is not None:
+                    exp_ = exp_[:count]
+                if skip is not None and skip > n and r is False:
+                    continue
+                check_list(r, exp_, "parse_all(skip=%r,count=%r)-after-other-reads" % (skip, count))
         # full read, random access, all slices
         check_list(ddf.parse_all(), msgs, "parse_all()")
         for idx in (range(n + 2) if n <= 8 else [0, 1, 127, 128, 254, 255, 256, 257, n - 1, n, n + 1]):
